@@ -357,6 +357,88 @@ class SharedBatch:
         return self.big[:self.B]
 
 
+def malformed(case, batch, kind):
+    """a copy of the batch on which learn() must fail:
+       'width'   — continuous actions one column too wide (fails in the first critic forward of the call); discrete actions
+                   out of range (fails in the gather / index, after the networks were evaluated),
+       'rows'    — the reward tensor(s) one row too long (fails when the Bellman target is assembled, after the target
+                   networks were evaluated),
+       'late'    — multi-agent only: only the LAST agent's reward is one row too long (the earlier agents' updates run first)"""
+    b = clone_batch(case, batch)
+    wide = lambda v: torch.cat([v, v[:, :1]], dim=1) if v.ndim == 2 else torch.stack([v, v], dim=1)
+    tall = lambda v: torch.cat([v, v[:1]], dim=0)
+    if case["algo"] in MULTI:
+        st, ac, rw, ns, dn = b
+        if kind == "width":
+            ac = {a: wide(v) for a, v in ac.items()}
+        elif kind == "rows":
+            rw = {a: tall(v) for a, v in rw.items()}
+        else:
+            last = ids(case)[-1]
+            rw = {a: (tall(v) if a == last else v) for a, v in rw.items()}
+        return (st, ac, rw, ns, dn)
+    tds = [b[0], b[1]] if case["algo"] == "Rainbow" else [b]
+    out = []
+    for td in tds:
+        if td is None:
+            out.append(None)
+            continue
+        d = {k: td[k] for k in td.keys()}
+        if kind == "width":
+            d["action"] = wide(d["action"]) if case["algo"] in SINGLE_AC else d["action"] + (N_ACT + 5)
+        else:
+            d["reward"] = tall(d["reward"])
+        out.append(d)             # a plain dict: the fields no longer share one batch size
+    return tuple(out) if case["algo"] == "Rainbow" else out[0]
+
+
+def full_state(agent, algo):
+    """everything a failed learn() call must leave untouched: all network weights (online and target), all optimiser
+    state tensors, the phase counter(s) of the policy delay"""
+    st = {}
+    for n, on, tg in pairs(agent, algo):
+        st["online:" + n], st["target:" + n] = weights(on)[0], weights(tg)[0]
+    for name, v in sorted(vars(agent).items()):
+        if hasattr(v, "optimizer") and hasattr(v, "state_dict"):
+            sds = v.state_dict()
+            for oi, sd in enumerate(sds if isinstance(sds, list) else [sds]):
+                for pid, ps in sorted(sd.get("state", {}).items(), key=lambda kv: str(kv[0])):
+                    for kk, vv in sorted(ps.items()):
+                        st[f"optimizer:{name}[{oi}].{pid}.{kk}"] = (vv.detach().reshape(-1).to(torch.float64).numpy().copy()
+                                                                    if isinstance(vv, torch.Tensor) else np.array([float(vv)]))
+    lc = getattr(agent, "learn_counter", None)
+    if lc is not None:
+        st["counter:learn_counter"] = np.array([float(x) for x in (lc.values() if isinstance(lc, dict) else [lc])])
+    return st
+
+
+def state_diff(a, b):
+    out = []
+    for k in sorted(set(a) | set(b)):
+        if k not in a or k not in b or a[k].shape != b[k].shape or not np.array_equal(a[k], b[k]):
+            out.append(k)
+    return out
+
+
+def failing_learn(agent, case, batch, kind):
+    """hand learn() a malformed batch, catch what it raises, report whether anything of the agent changed"""
+    before = full_state(agent, case["algo"])
+    bad = malformed(case, batch, kind)
+    algo = case["algo"]
+    try:
+        if algo == "Rainbow":
+            agent.learn(bad[0], n_experiences=bad[1], per=case["rb"]["per"])
+        elif algo in SINGLE_AC:
+            agent.learn(bad, noise_clip=NOISE_CLIP, policy_noise=POLICY_NOISE)
+        else:
+            agent.learn(bad)
+        raised = None
+    except Exception as e:
+        raised = f"{type(e).__name__}: {str(e)[:160]}"
+    changed = state_diff(before, full_state(agent, algo))
+    return {"kind": kind, "raised": raised, "changed": changed}
+
+
 def call_learn(agent, case, batch, passed=None):
     """learn() on a fresh clone of [batch] (or on [passed], experiences that share storage with earlier calls);
     reports which of the handed-over tensors learn() modified"""
@@ -560,6 +642,9 @@ class C08(vlib.Driver):
                         "dones": dones, "rewards": [rng.randint(-8, 8) / 4 for _ in range(B)],
                         "steps": 1 + (j % 5), "pre": pres[(j - 3) % len(pres)] if j >= 4 else [], "lr": 1e-2,
                         "partial_cfg": j % 6 == 5, "reuse": [None, "same", None, "views", None][j % 5]}
+                if j % 3 == 2:     # failed learn() calls (caught) at several positions of the history
+                    kinds = ["width", "rows"]
+                    case["fail_at"] = [[p_, kinds[(j + p_) % 2]] for p_ in sorted({0, (j // 3) % case["steps"], case["steps"] - 1})]
                 if algo in SINGLE_AC or algo == "MATD3":
                     case["pf"] = 1 + (j % 3)
                 if algo in SINGLE_AC:
@@ -607,6 +692,11 @@ class C08(vlib.Driver):
         for algo in self.AUDIT:           # every learner sweeps the same experiences three times: one object / slices of one dataset
             self.AUDIT[algo] = [v for v in self.AUDIT[algo] if not v.get("_reuse")] + \
                 [{"reuse": "same", "steps3": True, "_reuse": True}, {"reuse": "views", "steps3": True, "_reuse": True}]
+        for algo in self.AUDIT:           # policy-delay phase after failed calls: 5 successful calls, failures before calls 1 and 3
+            self.AUDIT[algo] += [{"fail_at": [[1, "width"], [3, "rows"]], "steps5": True, "pf2": True, "_reuse": True},
+                                 {"fail_at": [[0, "rows"], [2, "width"], [2, "rows"]], "steps5": True, "pf3": True, "_reuse": True}]
+        for algo in ("MADDPG", "MATD3"):
+            self.AUDIT[algo].append({"fail_at": [[1, "late"]], "steps3": True, "pf2": True, "_reuse": True})
         self.AUDIT["CQN"].append({"reuse": "views", "form": "tuple", "steps3": True, "_reuse": True})
         self.AUDIT["TD3"].append({"reuse": "same", "form": "tuple", "steps3": True, "_reuse": True})
         reps = 1 if tier == "quick" else 4
@@ -632,9 +722,13 @@ class C08(vlib.Driver):
                                       "combined": bool(vi % 2), "ndones": [rng.randint(0, 1) for _ in range(B)], "wshape": "col"}
                         if v.get("per"):
                             case["rb"]["per"] = True
-                    case.update({k: x for k, x in v.items() if k not in ("per", "force_done", "atoms", "steps3", "_reuse")})
+                    case.update({k: x for k, x in v.items() if k not in ("per", "force_done", "atoms", "steps3", "steps5", "pf2", "pf3", "_reuse")})
                     if v.get("steps3"):
                         case["steps"] = 3
+                    if v.get("steps5"):
+                        case["steps"] = 5
+                    if (v.get("pf2") or v.get("pf3")) and (algo in SINGLE_AC or algo == "MATD3"):
+                        case["pf"] = 2 if v.get("pf2") else 3
                     if v.get("atoms"):
                         case["rb"]["atoms"] = v["atoms"]
                     if v.get("force_done"):
@@ -720,8 +814,20 @@ class C08(vlib.Driver):
             obs["pairs"] = [{"name": n, "cells": len(s0[n][1]), "online_cells": len(s0[n][0]), "exposed": int(s0[n][2]),
                              "idx": idx[n], "t0": [float(s0[n][1][i]) for i in idx[n]]} for n in names]
             prev = s0
+            obs["failed"] = []
             for k in range(case["steps"]):
                 seed_k = case["seed"] + 1000 + k
+                for fk, kind in case.get("fail_at", []):       # a learn() call that raises (caught here) before successful call k
+                    if fk == k:
+                        torch.manual_seed(seed_k + 500)
+                        fr = failing_learn(A, case, batch, kind)
+                        fr["before_step"] = k
+                        obs["failed"].append(fr)
+                        if fr["raised"] is None:
+                            obs["accepted_malformed"] = True
+                        if k == 0:
+                            torch.manual_seed(seed_k + 500)
+                            failing_learn(A2, case, batch2, kind)   # the twin lives through the same history
                 if case.get("default_noise"):
                     # the default noise_clip (0.5) is 2.5 sigma of the default policy_noise (0.2): pick the torch seed of
                     # this call so that the clip really acts on a not-done row (otherwise the default would go untested)
@@ -809,7 +915,7 @@ class C08(vlib.Driver):
 
     # ---------- model term
     def coq_term(self, case, obs):
-        if obs["error"] or not obs["steps"]:
+        if obs["error"] or not obs["steps"] or obs.get("accepted_malformed"):
             return None
         algo = case["algo"]
         g = coq_Q(obs["gamma"])
@@ -890,8 +996,24 @@ class C08(vlib.Driver):
             return [Violation("learn-raises", f"learn-raises:{algo}:{obs.get('error_type')}",
                               f"{algo}: building the agent, its pre-history or learn() raised on a batch the replay buffer would "
                               f"deliver: {obs['error']}\n{obs.get('trace', '')}")]
+        if obs.get("accepted_malformed"):
+            return []           # learn() accepted the malformed batch: this is not a failed-call history (and not this property)
         pf, upd = self.update_steps(case, obs)
         tau = obs["tau"]
+        # (0) a learn() call that raises is a no-op: no parameter, target, optimiser state or phase counter may change
+        #     (the steps after it are then checked exactly like those of a history without the failed call)
+        for fr in obs.get("failed", []):
+            if fr["raised"] is None:
+                continue        # the malformed batch was accepted: nothing to say about failed calls
+            if fr["changed"]:
+                what = sorted({c.split(":")[0] for c in fr["changed"]})
+                tag = "counter" if what == ["counter"] else ("partial-update" if any(w in what for w in ("online", "target", "optimizer")) else "state")
+                out.append(Violation("failed-learn", f"failed-learn:{algo}:{tag}",
+                                     f"a learn() call on a malformed batch ({fr['kind']}) before successful call {fr['before_step']} raised "
+                                     f"{fr['raised']!r} but did not leave the agent unchanged: {fr['changed'][:8]}"
+                                     f"{' ...' if len(fr['changed']) > 8 else ''} differ from before the call. A failed learn step must not "
+                                     f"advance the policy-delay phase or apply part of an update"))
+                return out
         for k, rec in enumerate(obs["steps"]):
             # (1) the minimised quantity is the defined loss with the Bellman target
             ref = ref_loss(case, rec["tables"])
@@ -1057,7 +1179,7 @@ class C08(vlib.Driver):
 
     def key(self, case):
         return super().key({k: case.get(k) for k in ("algo", "dones", "gamma", "tau", "pf", "steps", "pre", "rb", "share", "ma_split", "obs", "form", "act1d",
-                                                               "default_noise", "key_order", "ids_unsorted", "ma_discrete", "reuse")})
+                                                               "default_noise", "key_order", "ids_unsorted", "ma_discrete", "reuse", "fail_at")})
 
     def nontrivial(self, case, obs):
         d = case["dones"][:case["B"]]
@@ -1069,9 +1191,9 @@ class C08(vlib.Driver):
                 f"steps={case['steps']}", f"B={case['B']}", "pre=" + "+".join(case["pre"] or ["none"]), "cfg=" + ("partial" if case.get("partial_cfg") else "tiny"),
                 "dones=" + ("mixed" if (0 in d and 1 in d) else ("all1" if 1 in d else "all0"))]
         labs.append("obs=" + case.get("obs", "vec"))
-        for flag in ("form", "act1d", "default_noise", "key_order", "ids_unsorted", "ma_discrete", "reuse"):
+        for flag in ("form", "act1d", "default_noise", "key_order", "ids_unsorted", "ma_discrete", "reuse", "fail_at"):
             if case.get(flag):
-                labs.append(f"{flag}={case[flag]}")
+                labs.append(f"{flag}={case[flag]}" if flag != "fail_at" else "failed-calls=" + "+".join(sorted({k_ for _, k_ in case[flag]})))
         if len(case["pre"]) >= 3 or (case["pre"] and case["pre"][0] != "learn"):
             labs.append("pre-chain-or-no-learn-before-op")
         if case["algo"] == "Rainbow":
